@@ -19,6 +19,7 @@ from common import cstr, clist, copt, cbool
 
 IMPORTS = "From DJC Require Import Lib.Base DepsRender.Model."
 CORPUS = os.path.join(C.VERIF, "corpus", "C08")
+SHARD = 500   # cases per coqc process (16 processes run at once)
 
 # ---------------------------------------------------------------------------------------------------------------
 # The documented grammar, restated (NOT imported from the source): this is the specification side.
@@ -31,16 +32,11 @@ SPEC_PH = re.compile(r'<link name="CSS_PLACEHOLDER"%s/?>|<script name="JS_PLACEH
 SPEC_END = re.compile(r"</(head|body)\s*>")          # str mode: Unicode whitespace, lower-case names only
 
 
-def tag_ok(r):
-    """An inserted block is opaque for the end-tag search: empty, or <x...> without an end-tag look-alike inside."""
-    return r == "" or (r[0] == "<" and r[1:2] != "/" and r[-1] == ">" and SPEC_END.search(r) is None)
-
-
 def spec_render(doc, ty, known, deps):
     """The property, stated directly.  Returns ('ok', out, info) or ('err', ExceptionName, info)."""
     parts = []
     t = SPEC_MARKER.sub(lambda m: parts.append(m.group(1)) or "", doc)
-    info = {"parts": parts, "n_end": 0, "kinds": set(), "class": None}
+    info = {"parts": parts, "n_end": 0, "kinds": set(), "inserted_has_endtag": False}
     hashes = []
     for p in parts:
         m = SPEC_PART.fullmatch(p)
@@ -74,8 +70,8 @@ def spec_render(doc, ty, known, deps):
                 chunks.append(("O", s[1]))
         elif repl[s[1]]:
             chunks.append(("I", repl[s[1]]))
-    if len(kinds) == 1 and not tag_ok(repl[next(iter(kinds))]):
-        info["class"] = "c08-endtag-in-inserted-tags"
+    # the class of the defect fixed in b234f8a (feature histogram only): one kind at its placeholder, end-tag text inside it
+    info["inserted_has_endtag"] = len(kinds) == 1 and SPEC_END.search(repl[next(iter(kinds))]) is not None
     first_head = last_body = None
     for ci, (k, txt) in enumerate(chunks):
         if k != "O":
@@ -123,8 +119,9 @@ class World:
             ("C08N", {"template": "<i>N</i>"}),
             ("C08V", {"template": "<em>V</em>", "js": "console.log('V');", "get_js_data": lambda self, *a, **k: {"v": 1}}),
             ("C08Кн", {"template": "<u>K</u>", "css": ".k{top:0}"}),
-            # inserted tags that contain end-tag text (the class c08-endtag-in-inserted-tags)
-            ("C08X", {"template": "<s>X</s>", "js": "var h = '</head>';", "css": ".x:after{content:'</body>'}"}),
+            # inserted tags that contain end-tag text (the class of the defect fixed in b234f8a)
+            # and non-ASCII text (character counts != byte counts)
+            ("C08X", {"template": "<s>X</s>", "js": "var h = '</head>\u00e9\U0001d11e';", "css": ".x:after{content:'\u00fc</body>'}"}),
         ]
         self.comps, self.marker, self.rendered = {}, {}, {}
         for name, attrs in specs:
@@ -289,18 +286,20 @@ def gen_docs(chk, world, thorough):
     """Yields (pieces, ty, kind, label)."""
     mk = world.marker
     core = ["é", "</head>", "</body >", CSS_PH, JS_PH, mk["C08A"], "</he", "ad>", "</HEAD>"]
-    maxlen = 4
+    maxlen = 5 if thorough else 4
     n = 0
     for L in range(0, maxlen + 1):
         for seq in itertools.product(range(len(core)), repeat=L):
             pieces = [core[i] for i in seq]
-            if L <= 3 or thorough:
+            if L == 5 and n % 3:
+                n += 1
+                continue            # thorough: a third of the 59049 five-piece arrangements
+            if L <= 3 or (thorough and L == 4):
                 tys = ["document", "fragment"] if (L <= 2 or n % 4 == 0) else ["document"]
             else:
-                # quick: every 4-piece arrangement goes through the implementation + oracle; the model sees a third
                 tys = ["document"]
             for ty in tys:
-                yield pieces, ty, ("str", "bytes", "safe")[n % 3], "exh%d" % L
+                yield pieces, ty, ("str", "bytes", "safe")[(n // 3 if L == 5 else n) % 3], "exh%d" % L
             n += 1
     rng = chk.rng
     pool = piece_pool(world)
@@ -327,26 +326,24 @@ def gen_docs(chk, world, thorough):
         yield pieces, rng.choice(["document", "fragment"]), rng.choice(["str", "bytes", "safe"]), "error"
 
 
-def gen_defect_class(chk, world, thorough):
-    """Documents of the class c08-endtag-in-inserted-tags: one kind of placeholder, inserted block holds end-tag text."""
+def gen_endtag_in_inserted(chk, world, thorough):
+    """Documents of the class fixed in b234f8a: the generated JS holds the text </head>, the generated CSS the text </body>
+    (component C08X).  Exhaustive: the marker followed by every arrangement of <= 4 (thorough: 5) pieces of a 7-piece alphabet
+    (incl. the halves '</head' '>' that only look like an end tag in a copy whose inserted blocks are blanked by white space)."""
     X = world.marker["C08X"]
-    base = [
-        [X, "<html><head>", JS_PH, "</head><body>x</body></html>"],
-        [X, "<html><body>", JS_PH, "</body></html>"],
-        [X, "<head>", CSS_PH, "</head><body>x"],
-        [X, "a", CSS_PH, "</body>", "b"],
-        [X, JS_PH],
-        [X, CSS_PH],
-    ]
-    for p in base:
-        yield p, "document", "str", "defect-class"
+    alph = ["</head>", "</body >", CSS_PH, JS_PH, "\u00e9", "</head", ">"]
+    n = 0
+    for L in range(0, (5 if thorough else 4) + 1):
+        for seq in itertools.product(alph, repeat=L):
+            yield [X] + list(seq), "document", ("str", "bytes", "safe")[n % 3], "endtag-in-inserted-exh"
+            n += 1
     rng = chk.rng
     pool = piece_pool(world)
-    for _ in range(200 if thorough else 40):
+    for _ in range(400 if thorough else 80):
         pieces = [X, rng.choice([JS_PH, CSS_PH])]
-        for _ in range(rng.randint(0, 5)):
-            pieces.insert(rng.randint(0, len(pieces)), rng.choice(pool[rng.choice(["text", "end", "end", "marker"])]))
-        yield pieces, "document", rng.choice(["str", "bytes", "safe"]), "defect-class"
+        for _ in range(rng.randint(0, 6)):
+            pieces.insert(rng.randint(0, len(pieces)), rng.choice(pool[rng.choice(["text", "end", "end", "marker", "split", "ph"])]))
+        yield pieces, "document", rng.choice(["str", "bytes", "safe"]), "endtag-in-inserted"
 
 
 CTYPES = ["text/html", "text/html; charset=utf-8", "text/htmlx", "text/htm", "TEXT/HTML", "application/json", "text/plain",
@@ -386,8 +383,9 @@ def one_case(chk, world, tab, pieces, ty, kind, label, collect):
     chk.extra_hist["placeholders:" + (",".join(sorted(info["kinds"])) or "none")] += 1
     chk.extra_hist["markers:%d" % min(len(info["parts"]), 3)] += 1
     chk.extra_hist["endtags:%d" % min(info["n_end"], 3)] += 1
+    if info["inserted_has_endtag"]:
+        chk.extra_hist["endtag-text-inside-inserted-block"] += 1
     # ---- direct oracle ----
-    trigger_class = info["class"]
     if spec[0] == "err":
         if impl != ("err", spec[1]):
             chk.fail("c08-error-outcome", "expected %s for this marker data, got %r" % (spec[1], impl[:2]), dict(replay, impl=impl, expected=spec[:2]))
@@ -398,7 +396,7 @@ def one_case(chk, world, tab, pieces, ty, kind, label, collect):
             if impl[1] != kind:
                 chk.fail("c08-type", "input type %s came back as %s" % (kind, impl[1]), dict(replay, impl=impl))
             if impl[2] != spec[1]:
-                chk.fail(trigger_class or "c08-placement",
+                chk.fail("c08-placement",
                          "output differs from: markers/placeholders removed, tags at every placeholder, else CSS before first "
                          "</head> / JS before last </body> of the document, every other symbol kept",
                          dict(replay, impl=impl[2], expected=spec[1]))
@@ -430,7 +428,14 @@ def run(tier, seed):
     gen_constants.generate(["C08"])
     chk = C.Check("C08", tier, seed)
     chk.extra_hist = collections.Counter()
+    import time
+    phases, _t = {}, [time.time()]
+
+    def phase(name):
+        phases[name] = round(time.time() - _t[0], 1)
+        _t[0] = time.time()
     chk.prove()
+    phase("prove")
     thorough = tier == "thorough"
     world = World()
     tab = Table()
@@ -453,22 +458,17 @@ def run(tier, seed):
         one_case(chk, world, tab, expand(world, c["pieces"]), c.get("type", "document"), c.get("input_kind", "str"), "corpus", cases)
 
     # ---- 2. generated documents ----
-    n4 = 0
     for pieces, ty, kind, label in gen_docs(chk, world, thorough):
-        if label == "exh4" and not thorough:
-            n4 += 1
-            if n4 % 3:
-                # oracle only (implementation vs the direct statement); the model sees every third arrangement
-                one_case(chk, world, tab, pieces, ty, kind, label, [])
-                continue
         one_case(chk, world, tab, pieces, ty, kind, label, cases)
-    for pieces, ty, kind, label in gen_defect_class(chk, world, thorough):
+    for pieces, ty, kind, label in gen_endtag_in_inserted(chk, world, thorough):
         one_case(chk, world, tab, pieces, ty, kind, label, cases)
+    phase("render-impl+oracle")
     defs = "\n".join(tab.defs)
-    bad = C.coq_eval_cases("C08", "render", IMPORTS, "render_case", "check_render", [t for t, _ in cases], shard=1500, extra_defs=defs)
+    bad = C.coq_eval_cases("C08", "render", IMPORTS, "render_case", "check_render", [t for t, _ in cases], shard=SHARD, extra_defs=defs)
     for i in bad[:20]:
         chk.disagree("model render_any != render_dependencies", cases[i][1])
 
+    phase("render-model")
     # ---- 3. middleware ----
     mw_cases = []
     rng = chk.rng
@@ -495,7 +495,7 @@ def run(tier, seed):
                 if html:
                     exp = ("ok", spec[1]) if spec[0] == "ok" else ("err", spec[1])
                     if got != exp:
-                        chk.fail(spec[2]["class"] or "c08-middleware-html", "text/html response differs from the documented placement", dict(replay, impl=got, expected=exp))
+                        chk.fail("c08-middleware-html", "text/html response differs from the documented placement", dict(replay, impl=got, expected=exp))
                 src_parts = [m.group("data").decode() for m in D.COMPONENT_COMMENT_REGEX.finditer(body.encode())]
                 try:
                     js, css = world.deps("document", src_parts)
@@ -508,10 +508,11 @@ def run(tier, seed):
                     cbool(streaming), copt(ct, cstr), cstr(body), clist([cstr(h) for h in world.known([p.split(",")[0] for p in src_parts])]),
                     tab.name(js), tab.name(css), tr), replay))
     defs = "\n".join(tab.defs)
-    bad = C.coq_eval_cases("C08", "mw", IMPORTS, "mw_case", "check_mw", [t for t, _ in mw_cases], shard=1500, extra_defs=defs)
+    bad = C.coq_eval_cases("C08", "mw", IMPORTS, "mw_case", "check_mw", [t for t, _ in mw_cases], shard=SHARD, extra_defs=defs)
     for i in bad[:20]:
         chk.disagree("model process_response != ComponentDependencyMiddleware", mw_cases[i][1])
 
+    phase("middleware")
     # ---- 4. matcher-level differential: hand matchers vs Python re with the patterns of the current source ----
     sp_cases = []
     alph = {
@@ -547,10 +548,11 @@ def run(tier, seed):
                      {"kind": "spans", "doc": s, "source": [mk, ph, et], "documented": [mk2, ph2, et2]})
         pr = lambda l: clist(["(%d, %d)" % (a, b) for a, b in l])  # noqa
         sp_cases.append(("(%s, %s, %s, %s)" % (cstr(s), pr(mk), pr(ph), pr(et)), {"kind": "spans", "doc": s}))
-    bad = C.coq_eval_cases("C08", "spans", IMPORTS, "spans_case", "check_spans", [t for t, _ in sp_cases], shard=1500)
+    bad = C.coq_eval_cases("C08", "spans", IMPORTS, "spans_case", "check_spans", [t for t, _ in sp_cases], shard=SHARD)
     for i in bad[:20]:
         chk.disagree("hand matcher != Python re on the source pattern", sp_cases[i][1])
 
+    phase("matcher-differential")
     # ---- 5. outside the recorded domain (diagnostic only, never an alarm): HTML bytes that are not UTF-8 ----
     try:
         from django.http import HttpRequest, HttpResponse
@@ -564,6 +566,7 @@ def run(tier, seed):
         chk.extra["outside_domain_observation"] = "text/html response in charset iso-8859-1 with a non-ASCII byte through the middleware: " + obs
     except Exception as e:  # noqa
         chk.extra["outside_domain_observation"] = "not measured: %r" % (e,)
+    chk.extra["phase_wall_s"] = phases
     chk.extra["feature_histogram"] = dict(chk.extra_hist)
     chk.extra["interpretation"] = ("'a </head> end tag' is read as the documented pattern </head\\s*> (lower-case name, optional Unicode "
                                    "whitespace before '>'); </HEAD> is text for the code and for the specification")
